@@ -141,7 +141,7 @@ def construct(kind):
     if kind == "func":
         return "mk_user_func()"
     if kind == "builtin":
-        return "Value::BuiltinFunc{name: String::from(\"b\"), f: trivial_builtin}"
+        return "mk_builtin()"
     raise ValueError(kind)
 
 
@@ -202,6 +202,22 @@ fn mk_user_func() -> Value {
         stmts: vec![],
         closure: ScopeStack::new(vec![]),
     })))
+}
+
+// A builtin function value.  `Value` is niche-encoded: every other variant stores a constant tag
+// in the first word, but for BuiltinFunc that word is the capacity of `name`, and CBMC does not
+// constant-fold it out of the freshly built union literal (the literal contains the address of
+// `trivial_builtin`), which makes the value's kind symbolic and lets symex wander into the
+// container arms (measured: does not terminate).  Rewriting `name` in place through the variant
+// makes the first word a plain constant again.  Semantically this is just
+// `Value::BuiltinFunc{name: "b", f: trivial_builtin}`.
+fn mk_builtin() -> Value {
+    let mut v = Value::BuiltinFunc{name: String::new(), f: trivial_builtin};
+    match &mut v {
+        Value::BuiltinFunc{name, ..} => { *name = String::from("b"); },
+        _ => unreachable!(),
+    }
+    v
 }
 
 // loop-free comparison of a diagnostic's type name with a documented name
